@@ -61,6 +61,9 @@ def _gen_pool(tape, ctx):
                 pool.append(["and", a, richgen.gen(tape, bp.BOOL, 2, ctx), b])
             else:
                 pool.append([k, a, b])
+    if tape.chance(1, 3, "pool.xnode"):
+        j = tape.draw(len(pool), "pool.xnode.which")
+        pool[j] = ["and", ["xnode", pool[j], ["sym", "q", bp.BOOL]], ["sym", "p", bp.BOOL]]
     return pool
 
 
@@ -126,6 +129,22 @@ def execute(plan, tape):
     pool = plan["pool"]
     env = reset_env()
     _declare_all(env, symbols)
+    _register_xnode(env)
+    # a second, independent environment whose formulas are queried through env's oracles; it is
+    # populated first, so its node ids overlap with those the aged environment hands out
+    foreign_env = Environment()
+    _register_xnode(foreign_env)
+    foreign_built = {}
+    import pysmt.environment as penv_
+    penv_.push_env(foreign_env)
+    try:
+        for j, t_ in enumerate(pool):
+            try:
+                foreign_built[j] = bp.build(t_, foreign_env)
+            except Exception:
+                pass
+    finally:
+        penv_.pop_env()
     # interleave the clients' scripts: the tape picks the client that moves next
     queues = {}
     for o in plan["ops"]:
@@ -167,7 +186,7 @@ def execute(plan, tape):
                 elif sig2[0] == k and sig2[1] != json.dumps({a: b for a, b in spec.items() if a not in ("client",)}, sort_keys=True):
                     nontrivial = True
                     probe("same_formula_different_arguments")
-        key = json.dumps({a: b for a, b in spec.items() if a not in ("client", "_dict", "_parser")}, sort_keys=True)
+        key = json.dumps({a: b for a, b in spec.items() if a not in ("client", "_dict", "_parser", "_foreign", "_others", "_first", "_first_out")}, sort_keys=True)
         touched.append((spec["client"], subcache[i], (k, key)))
         if len(touched) > 40:
             touched.pop(0)
@@ -184,6 +203,16 @@ def execute(plan, tape):
                 shared_dict[c][bp.build(kt, env)] = bp.build(vt, env)     # in-place update of the client's dict
             spec["_dict"] = shared_dict[c]
             probe("shared_dict_updated_in_place")
+        if k == "foreign":
+            if i not in foreign_built:
+                continue
+            spec["_foreign"] = foreign_built[i]
+            probe("foreign_formula_query")
+        if k == "script_serialize":
+            try:
+                spec["_others"] = [bp.build(pool[j % len(pool)], env) for j in spec.get("others", [])]
+            except Exception:
+                continue
         if k == "parse_long":
             from pysmt.smtlib.parser import SmtLibParser
             if spec["client"] not in parsers:
@@ -202,6 +231,7 @@ def execute(plan, tape):
         # ---- sequential specification: the same call alone in a brand-new environment
         with Environment() as fresh:
             _declare_all(fresh, symbols)
+            _register_xnode(fresh)
             try:
                 if derived_src is None:
                     ff = bp.build(term, fresh)
@@ -214,6 +244,14 @@ def execute(plan, tape):
                 ff, fresh_build = None, type(ex).__name__
             if ff is not None and f is not None:
                 fspec = spec
+                if k == "resimplify":
+                    fspec = dict(spec)
+                    fspec["_first"] = spec.get("_first_out")
+                    if fspec["_first"] is None:
+                        fspec = None
+                if k == "script_serialize":
+                    fspec = dict(spec)
+                    fspec["_others"] = [bp.build(pool[j % len(pool)], fresh) for j in spec.get("others", [])]
                 if k == "parse_long":
                     from pysmt.smtlib.parser import SmtLibParser
                     fspec = dict(spec)
@@ -222,9 +260,9 @@ def execute(plan, tape):
                     fspec = dict(spec)
                     fspec["_dict"] = dict((bp.build(kt, fresh), bp.build(vt, fresh))
                                           for kt, vt in shared_bp[spec["client"]].values())
-                spec_out = calls.outcome(fresh, fspec, ff, term, user)
-        spec.pop("_dict", None)
-        spec.pop("_parser", None)
+                spec_out = calls.outcome(fresh, fspec, ff, term, user) if fspec is not None else aged
+        for k_ in ("_dict", "_parser", "_foreign", "_others", "_first", "_first_out"):
+            spec.pop(k_, None)
         if aged_build != fresh_build:
             raise Violation("C14:build:history-dependent",
                             "step %d: constructing pool[%d]=%s %s in the aged environment but %s in a fresh one" %
@@ -239,6 +277,9 @@ def execute(plan, tape):
                             (step, spec["client"], k, i, bp.pretty(term)[:200],
                              {a: b for a, b in spec.items() if a not in ("call", "i", "client")},
                              _show(aged), _show(spec_out)))
+        if aged[0] == "ok" and isinstance(aged[2], tuple) and aged[2] and aged[2][0] == "script-roundtrip-broken":
+            raise Violation("C14:script_serialize:depends-on-earlier-commands",
+                            "step %d: serialising a script with one printer: %s" % (step, aged[2][1]))
         if aged[0] == "ok" and isinstance(aged[2], tuple) and aged[2] and aged[2][0] == "fresh-collides":
             raise Violation("C14:fresh:collides", "FreshSymbol returned the existing user symbol %s" % aged[2][1])
         # ---- symbols introduced by the call did not exist before it ("fresh" means new)
@@ -279,6 +320,11 @@ def execute(plan, tape):
     return {"digest": digest_of(trace), "nontrivial": nontrivial, "probes": probes, "faults": {},
             "sim_time": 0.0, "steps": len(order),
             "sample": {"calls": describe(plan)[:40]}}
+
+
+def _register_xnode(env):
+    from pysmt.type_checker import SimpleTypeChecker
+    env.add_dynamic_walker_function(bp.xnode_type(), SimpleTypeChecker, SimpleTypeChecker.walk_bool_to_bool)
 
 
 def _declare_all(env, symbols):
